@@ -1,6 +1,7 @@
 import Batteries.Tactic.Alias
 import GenlmModel.Proofs.Regex
 import GenlmModel.Proofs.FsmWfsa
+import GenlmModel.Proofs.EndToEndLark
 /-! # C18 — the reference matcher the regex automata are compared with is verified -/
 namespace Genlm.Props.C18
 /-- the matcher decides exactly the denotation of the (desugared) regular expression -/
@@ -11,4 +12,8 @@ alias fsm_to_wfsa_normalised := Genlm.fsmToWfsa_normalised_field
 alias fsm_to_wfsa_support := Genlm.fsmToWfsa_support_field
 /-- string weights form a sub-probability distribution -/
 alias fsm_to_wfsa_subprobability := Genlm.fsmToWfsa_subprob_field
+
+/-- the grammar of a regex automaton: weights = forward weights of the normalised automaton; heads sum to one -/
+alias terminal_grammar_weight := Genlm.terminal_grammar_weight
+alias terminal_grammar_locally_normalised := Genlm.terminal_grammar_locally_normalised
 end Genlm.Props.C18
